@@ -429,7 +429,20 @@ H_OPTS = {
               ('-e', H_NUM), ('-S', ['L1', 'B1', 'L2', 'B2', 'L4', 'B4', 'L8', 'B8', 'L0', 'L9', '1', '4', 'X4', '', 'L']),
               ('-SEGMENT', ['CODE', 'DATA', 'NOSUCH', ''])],
     'pbind': [('-f', ['0', '$11', '17,81', '256', '', ',', '$11,$11']), ('+f', ['$11'])],
+    # the assembler's own options, plain and negated (+x), with boundary arguments, on a small valid source
+    'asl': [('-i', ['inc1', 'inc1:inc2', '', 'x' * 300]), ('+i', ['inc1', 'nosuch', '']), ('-o', ['o1.p', '', 'x' * 300]), ('+o', ['o1.p', None]),
+            ('-D', ['A', 'A=1', 'A=1,B=2', 'A=', '=1', 'A=1=2', '', 'A' * 300]), ('+D', ['A', 'A=1']), ('-cpu', ['z80', 'nosuch', '', '?']), ('+cpu', [None]),
+            ('-alias', ['new=z80', 'new=', '=z80', 'new', 'a=b=c', '']), ('+alias', ['new=z80']), ('-r', ['0', '1', '2', '-1', '99999', '', 'x']), ('+r', [None]),
+            ('-t', H_NUM), ('+t', ['0', '1', '32', '255', '256']), ('-E', ['e.log', '!0', '!1', '!2', '!3', '!4', '!5', '!9', '', None]), ('+E', [None]),
+            ('-maxerrors', ['0', '1', '65536', '-1', '', 'x']), ('+maxerrors', [None]), ('-maxinclevel', ['0', '1', '200', '-1', '']), ('-g', ['MAP', 'NOICE', 'ATMEL', 'nosuch', '', None]),
+            ('-NOICEMASK', ['0', '1', '255', '65536', '-1', '']), ('-LISTRADIX', ['0', '1', '2', '16', '36', '37', '-1', '']), ('-SPLITBYTE', [':', '', 'ab', '.']),
+            ('+SPLITBYTE', [None]), ('-OLIST', ['l.lst', '', 'x' * 300]), ('-SHAREOUT', ['s.h', '', 'x' * 300]), ('-L', [None]), ('+L', [None]), ('-l', [None]),
+            ('-c', [None]), ('-p', [None]), ('-a', [None]), ('-u', [None]), ('-C', [None]), ('-s', [None]), ('-I', [None]), ('-P', [None]), ('-M', [None]),
+            ('-A', [None]), ('-U', [None]), ('-h', [None]), ('-w', [None]), ('-x', [None]), ('-n', [None]), ('-X', [None]), ('-Y', [None]), ('-G', [None]), ('+G', [None]),
+            ('-WERROR', [None]), ('-GNUERRORS', [None]), ('-WARNRANGES', [None]), ('-q', [None])],
 }
+H_ASL_SOURCE = ('\tcpu\t6502\n\tinclude\t"a.inc"\nl1:\tlda\t#A_DEF\n\tjmp\tfwd\n\tbyt\t"abc\\{l1}"\nfwd:\tnop\n\tshared\tl1\n\tifdef\tB\n\twarning\t"B set"\n\tendif\n'
+                'A_DEF\tequ\t5\n')
 H_FILES = 4
 
 
@@ -451,9 +464,48 @@ def pool_h():
     return cases
 
 
+def case_h_asl(ctx, member):
+    out = ctx.out
+    _, tool, oi, vi, oj, vj, fi = member
+    os.makedirs(ctx.path('inc1'), exist_ok=True)
+    os.makedirs(ctx.path('inc2'), exist_ok=True)
+    ctx.write('inc1/a.inc', '\tnop\n')
+    ctx.write('inc2/a.inc', '\tnop\n\tnop\n')
+    ctx.write('a.inc', '\tbyt\t1\n')
+    ctx.write('in.asm', H_ASL_SOURCE)
+    opts = H_OPTS['asl']
+    args = []
+    for (a, b) in ((oi, vi), (oj, vj)):
+        if a < 0:
+            continue
+        o, vals = opts[a]
+        args.append(o)
+        if vals[b] is not None:
+            args.append(vals[b])
+    # source first or last (options with an optional argument may swallow what follows them: documented)
+    argv = (['in.asm'] + args) if fi % 2 == 0 else (args + ['in.asm'])
+    r = ctx.run('asl', argv, env=ASL_ENV, timeout=20)
+    out.obs['asl_runs'] += 1
+    out.sets['tools'].add('asl')
+    tag = 'H:asl %s' % ' '.join(argv)
+    if r.timed_out:
+        out.violate('hang:asl:option-value', '%s: no exit within 20 s and 100 s' % tag)
+        return
+    if r.san:
+        out.violate(r.san, '%s: %s' % (tag, r.err.decode('latin-1')[-600:]))
+        return
+    if r.rc not in ASL_OK + (4,):
+        out.violate('exit-status-undocumented:asl:%s' % r.rc, tag)
+        return
+    out.sets['asl_statuses'].add(str(r.rc))
+    out.sigs.add(tag)
+
+
 def case_h(ctx, member):
     out = ctx.out
     _, tool, oi, vi, oj, vj, fi = member
+    if tool == 'asl':
+        return case_h_asl(ctx, member)
     ctx.write('in.p', base_files()[fi])
     for n in ('out.p', 'out.bin', 'out.hex'):
         try:
